@@ -924,3 +924,131 @@ Proof.
   - apply increasing_fx_le; [exact Hinc|lia].
   - apply all_below_fx; [exact Hbel|lia].
 Qed.
+
+(** ---------- 11. fixed points by search strategy ---------- *)
+
+From TW Require Import Proofs.SearchProofs.
+Open Scope Qc_scope.
+
+Lemma ssorted_nondecr' : forall l, ssorted l -> nondecr l.
+Proof.
+  induction l as [|a l IH]; intros H; [exact I|].
+  destruct l as [|b l]; [exact I|]. destruct H as [Hab H]. split; [now apply Qclt_le_weak|now apply IH].
+Qed.
+
+Lemma memq_spec : forall v l, memq v l = true <-> In v l.
+Proof.
+  intros v l. unfold memq. rewrite existsb_exists. split.
+  - intros [u [Hu E]]. apply Qc_eqb_true in E. now subst.
+  - intros H. exists v. split; [exact H|now apply Qc_eqb_true].
+Qed.
+
+Lemma insert_sorted_in : forall u v l, In u (insert_sorted v l) <-> u = v \/ In u l.
+Proof.
+  intros u v. induction l as [|a l IH]; cbn [insert_sorted].
+  - cbn [In]. intuition.
+  - qc_case (Qc_ltb v a).
+    + cbn [In]. intuition.
+    + qc_case (Qc_eqb v a).
+      * subst a. cbn [In]. intuition.
+      * cbn [In]. rewrite IH. intuition.
+Qed.
+
+Lemma unique_in : forall u l, In u (unique l) <-> In u l.
+Proof.
+  intros u. induction l as [|a l IH]; [reflexivity|].
+  unfold unique in *. cbn [fold_right]. rewrite insert_sorted_in, IH. cbn [In]. intuition.
+Qed.
+
+Lemma where_isin_from_in : forall x s k i,
+  In i (where_isin_from k x s) <-> exists j, i = (k + j)%nat /\ (j < length x)%nat /\ In (nthq j x) s.
+Proof.
+  induction x as [|a x IH]; intros s k i; cbn [where_isin_from].
+  - split; [intros []|]. intros [j [_ [Hj _]]]. cbn [length] in Hj. lia.
+  - assert (Hrec : In i (where_isin_from (S k) x s) <->
+                   exists j, i = (k + S j)%nat /\ (S j < length (a :: x))%nat /\ In (nthq (S j) (a :: x)) s).
+    { rewrite IH. split; intros [j [H1 [H2 H3]]]; exists j; cbn [length] in *; rewrite ?nthq_cons_S in *;
+        (split; [lia|split; [lia|assumption]]). }
+    destruct (memq a s) eqn:E.
+    + cbn [In]. rewrite Hrec. split.
+      * intros [<-|[j H]]; [exists O|exists (S j); exact H].
+        split; [lia|]. split; [cbn [length]; lia|]. rewrite nthq_cons_0. now apply memq_spec.
+      * intros [[|j] [H1 H2]]; [left; lia|right; exists j; split; assumption].
+    + rewrite Hrec. split.
+      * intros [j H]. exists (S j). exact H.
+      * intros [[|j] [H1 [H2 H3]]]; [|exists j; repeat split; assumption].
+        rewrite nthq_cons_0 in H3. apply memq_spec in H3. congruence.
+Qed.
+
+Lemma increasing_cons : forall a l, (forall b, In b l -> (a < b)%nat) -> increasing l -> increasing (a :: l).
+Proof. intros a [|b l] H Hl; [exact I|]. split; [apply H; now left|exact Hl]. Qed.
+
+Lemma where_isin_from_increasing : forall x s k, increasing (where_isin_from k x s).
+Proof.
+  induction x as [|a x IH]; intros s k; cbn [where_isin_from]; [exact I|].
+  destruct (memq a s); [|apply IH].
+  apply increasing_cons; [|apply IH]. intros b Hb. apply where_isin_from_in in Hb.
+  destruct Hb as [j [-> _]]. lia.
+Qed.
+
+Lemma where_isin_in : forall x s i, In i (where_isin x s) <-> (i < length x)%nat /\ In (nthq i x) s.
+Proof.
+  intros x s i. unfold where_isin. rewrite where_isin_from_in. split.
+  - intros [j [-> H]]. exact H.
+  - intros H. exists i. split; [reflexivity|exact H].
+Qed.
+
+Lemma take_in : forall x (spec : Qc -> Z) l v,
+  In v (take x (map spec l)) <-> exists q, In q l /\ v = nthq (Z.to_nat (spec q)) x.
+Proof.
+  intros x spec l v. unfold take. rewrite map_map, in_map_iff. split; intros [q [H1 H2]]; exists q; split; auto.
+Qed.
+
+Lemma find_indices_spec : forall x s, ssorted x -> x <> [] -> s <> UnknownStrategy ->
+  exists spec : Qc -> Z,
+    (forall lookup, nondecr lookup -> lookup <> [] -> find_indices x lookup s true = Ok (map spec lookup)) /\
+    (forall q, in_range (spec q) x).
+Proof.
+  intros x s Hs Hx Hk.
+  assert (Hlen : (0 < Z.of_nat (length x))%Z).
+  { destruct x; [congruence|]. cbn [length]. lia. }
+  destruct s; [| | |congruence].
+  - exists (closest_spec x). split.
+    + intros lookup Hl Hn. now apply closest_scan_correct.
+    + intros q. exact (proj1 (closest_spec_is_closest x q Hs Hx)).
+  - exists (lower_spec x true). split.
+    + intros lookup Hl Hn. now apply lower_scan_correct.
+    + intros q. destruct (lower_spec_is_lower x true q Hs Hx) as [[H _]|[_ H]]; [exact H|].
+      rewrite H. unfold in_range. lia.
+  - exists (higher_spec x true). split.
+    + intros lookup Hl Hn. now apply higher_scan_correct.
+    + intros q. destruct (higher_spec_is_higher x true q Hs Hx) as [[H _]|[_ H]]; [exact H|].
+      rewrite H. unfold in_range. lia.
+Qed.
+
+Theorem resolve_strategy_spec : forall x xr s fi ridx, ssorted x -> ssorted xr -> x <> [] -> xr <> [] ->
+  resolve_fixed x xr (ByStrategy s) = Ok (fi, ridx) ->
+  ridx = seq 0 (length xr) /\ increasing fi /\ all_below fi (length x) /\
+  forall i, In i fi <-> exists q, In q xr /\ find_indices x [q] s true = Ok [Z.of_nat i].
+Proof.
+  intros x xr s fi ridx Hs Hsr Hx Hxr H.
+  assert (Hk : s <> UnknownStrategy).
+  { intros ->. unfold resolve_fixed, find_indices, bind in H. discriminate H. }
+  destruct (find_indices_spec x s Hs Hx Hk) as [spec [Hfind Hrange]].
+  unfold resolve_fixed in H.
+  rewrite (Hfind xr (ssorted_nondecr' xr Hsr) Hxr) in H. cbn [bind] in H.
+  destruct (length (where_isin x (unique (take x (map spec xr)))) =? length (unique (take x (map spec xr))))%nat;
+    [|discriminate H].
+  injection H as <- <-.
+  split; [reflexivity|]. split; [apply where_isin_from_increasing|]. split.
+  { intros i Hi. apply where_isin_in in Hi. tauto. }
+  intros i. rewrite where_isin_in. split.
+  - intros [Hi Hin]. apply unique_in, take_in in Hin. destruct Hin as [q [Hq E]].
+    exists q. split; [exact Hq|].
+    rewrite (Hfind [q] I ltac:(discriminate)). cbn [map]. do 2 f_equal.
+    destruct (Hrange q) as [H0 H1].
+    apply ssorted_nth_inj in E; [lia|exact Hs|exact Hi|lia].
+  - intros [q [Hq E]]. rewrite (Hfind [q] I ltac:(discriminate)) in E. cbn [map] in E.
+    injection E as E. destruct (Hrange q) as [H0 H1]. split; [lia|].
+    apply unique_in, take_in. exists q. split; [exact Hq|]. rewrite E, Nat2Z.id. reflexivity.
+Qed.
